@@ -18,6 +18,7 @@ dead <i> <client> <N> <tmo 0|1> <answered K> <fault> <when> <cut>
 tmo <i> <client> <late|early|race>                   -> <i> first <Timeout|own|racy> next own
 cancel <i> <client> <prewrite|wait>                  -> <i> cancelled next own residue 0
 stall <i> <client> <fault>                           -> <i> small Err big Err
+seq <i> <client> <T> <K>                             -> <i> ok <T*K>
 ```
 -/
 namespace Repe.Driver.Mux
@@ -193,6 +194,18 @@ def runCancel (cfg : Cfg) (kind : String) : String :=
     let c0 := match (s.calls 0).pc with | .returned .cancelled => "cancelled" | _ => "bad"
     c0 ++ " next " ++ showTmo (s.calls 1) ++ " residue " ++ toString residue
 
+/-- `n` calls one after the other, each answered at once: all return their own response. -/
+def runSeq (cfg : Cfg) (n : Nat) : String :=
+  let rec go (fuel : Nat) (c : Nat) (s : State) (ok : Nat) : Nat :=
+    match fuel with
+    | 0 => ok
+    | fuel + 1 =>
+      let s := [Ev.alloc c, .register c, .write c].foldl (step cfg) s
+      let s := [Ev.rmatch { id := (s.calls c).id, notify := false, tag := c }, .deliver, .recv c].foldl (step cfg) s
+      let good := match (s.calls c).pc with | .returned (.resp f) => f.tag == c | _ => false
+      go fuel (c + 1) s (if good then ok + 1 else ok)
+  "ok " ++ toString (go n 0 State.init 0)
+
 /-- A caller (7) is stalled inside its write when the failure is noticed; the small call (0) is in
 flight.  Both end with an error once the failure path has run. -/
 def runStall (cfg : Cfg) : String :=
@@ -222,6 +235,10 @@ def stepLine (_ : Unit) (ws : List String) : Unit × String :=
     match cfgOf (natOf client) with
     | none => bad i
     | some cfg => ((), i ++ " " ++ runTmo cfg kind)
+  | ["seq", i, client, t, k] =>
+    match cfgOf (natOf client) with
+    | none => bad i
+    | some cfg => ((), i ++ " " ++ runSeq cfg (natOf t * natOf k))
   | ["stall", i, client, _fault] =>
     match cfgOf (natOf client) with
     | none => bad i
